@@ -963,12 +963,19 @@ def inj_project_into_output(data, rng, cap):
                         if inner_q in loop and inner_w not in loop:
                             for newpos in range(len(loop)):
                                 sites.append((ei, inner_q, inner_w, newpos))
+                            # every level of the output rank replaced by the same level of the input rank, in place
+                            # ([Q1, S, Q0] -> [W1, S, W0])
+                            if q in parts and parts[q] and not any(r.startswith(dname) and r[len(dname):].isdigit() for r in loop):
+                                sites.append((ei, q, dname, -1))
     rng.shuffle(sites)
     for ei, iq, iw, newpos in sites[:cap]:
         d = copy.deepcopy(data)
         out = es[ei]["out"]["name"]
-        loop = [r for r in loop_of(d, out) if r != iq]
-        loop.insert(newpos, iw)
+        if newpos == -1:
+            loop = [iw + r[len(iq):] if (r.startswith(iq) and r[len(iq):].isdigit()) else r for r in loop_of(d, out)]
+        else:
+            loop = [r for r in loop_of(d, out) if r != iq]
+            loop.insert(newpos, iw)
         set_loop(d, out, loop)
         st = _get(d, "mapping", "spacetime", out)
         if st:
